@@ -477,6 +477,10 @@ func main() {
 	rep.Rule = "explicit-state BFS: a state is an operation history replayed on fresh real registry/stream objects; every transition executes the real Regist/Unregist/Close/Get/Count/Infos/StartConsume/StopConsume/idle task and is compared with a map-based reference model in every state; plus all schedules within the deviation bound of racing Regist/Regist/Get/Unregist"
 	rep.Assumptions = []string{"sequentially consistent memory", "canonical state key = reference-model state (registry map, per-stream open flag and consumer counts, pending tasks); states are merged only after the implementation agreed with the model on all observations"}
 	bfs(rep)
+	runner.FineP = 1 // statement-level points in the files of fine.txt
+	if rep.Thorough() {
+		runner.FineP = 2
+	}
 	runner.Run(rep, scenarios(rep.Thorough()))
 	rep.Finish()
 }
